@@ -55,9 +55,29 @@ PROPS = {
    note="Trusts TSan's happens-before analysis, the sequential cache model and the interception of all synchronisation the cache uses (pthread mutex/rwlock).",
    technique="deterministic simulation: seeded thread scheduler over real threads (parked at intercepted lock operations) + TSan + linearizability checking against a sequential model",
    design_ref="DESIGN.md s4 C09, s3 E3"),
+ "C18": dict(engine="E7 crashfs", src="e7_crashfs", variants=["asan"], level="fault_enumeration",
+   seconds={"quick": 40, "thorough": 600},
+   rule="case = one sampled history (0..6 save/load/remove/gc/clock-advance/planted-garbage ops on two session ids, optional short/interrupted file I/O) followed by a save whose crash states are ENUMERATED on the simulated disk: "
+        "every prefix of the sequence of file operations, every byte prefix of a data-area write (all positions up to 600 bytes, else first/last 64, every sector edge +-2 and 64 random), and every subset of the dirty 512-byte sectors when <= 10 are dirty "
+        "(else single-missing/single-present/prefix/suffix subsets + random ones), each with old and new file length and with/without the new directory entry; after each state a fresh storage object loads (or gc+loads, or loads twice) under a possibly advanced clock. "
+        "evaluations = histories; crash_states (in coverage) = crash images checked. non-trivial = a history whose enumeration produced both 'no session' and 'complete value' outcomes; distinct = distinct (trace, outcome-count) hash",
+   fault_keys=["crash_states", "states_process_prefix", "states_torn_write", "states_power_loss", "file_short_io", "file_eintr", "garbage", "tick"],
+   probe_keys=["probe_multi_sector", "probe_old_longer_than_new", "probe_equal_length", "probe_old_shorter_than_new", "probe_new_file", "crash_load_old", "crash_load_new", "crash_load_none", "sector_subsets_exhaustive", "garbage_loads", "gc"],
+   components={"real": ["cppcms::sessions::session_file_storage (save/load/remove/gc, locking, CRC) via session_file_storage_factory"],
+               "stub": ["disk: in-memory file system with a write journal (sim/simk), crash images materialised from the journal", "clock", "process death / power loss (fresh storage object over the surviving image)"]},
+   assumptions=["the 16-byte header write is atomic (it lies inside one sector) - stated by the property", "sector size 512 bytes; a sector is either wholly old or wholly new after power loss; un-persisted extension reads as zeros",
+                "CRC-32 collisions are outside the reach of sampling (a mixture that collides is accepted by the code with probability 2^-32 per state)",
+                "histories are sampled; within a history the crash-state space is enumerated as described in rule (exhaustive for sector subsets when <= 10 sectors are dirty)"],
+   category="fault_enumeration",
+   text="Deterministic simulation of the disk under the real session_file_storage: for each sampled history the crash states of a save (write-sequence prefixes, torn data writes, dirty-sector subsets, length/dir-entry variants) are enumerated systematically and a restarted storage must return a whole earlier save or nothing. Fault enumeration is the right level because the property quantifies over crash points.",
+   note="Trusts the simulated file system's crash model (sector granularity, atomic header) and ASan; histories are sampled, crash states per history are enumerated.",
+   technique="deterministic simulation of the file layer with systematic crash-state enumeration (journal replay: write prefixes, torn writes, sector subsets) after seeded histories",
+   extra=True,
+   design_ref="DESIGN.md s4 C18, s3 E7"),
 }
 
 ENGINES = [
+ {"name": "E7 crashfs", "path": "harness/e7_crashfs.cpp", "serves_properties": ["C18"], "kind_free_text": "real session_file_storage over the simulated disk; crash states enumerated from the write journal"},
  {"name": "E3 cache-conc", "path": "harness/e3_cache_conc.cpp", "serves_properties": ["C09"], "kind_free_text": "real threads on the real cache under the seeded scheduler; TSan/ASan + linearizability checker"},
  {"name": "E2 cache-seq", "path": "harness/e2_cache_seq.cpp", "serves_properties": ["C07", "C08"], "kind_free_text": "real cache back-ends + cache_interface vs sequential model under simulated clock (sim/simk)"},
 ]
